@@ -371,7 +371,8 @@ class Syntax(JupyterMixin):
         )
         _get_theme_style = self._theme.get_style_for_token
         try:
-            lexer = get_lexer_by_name(self.lexer_name)
+            # keep leading and trailing blank lines, so that line numbers match the source
+            lexer = get_lexer_by_name(self.lexer_name, stripnl=False, ensurenl=True)
         except ClassNotFound:
             text.append(code)
         else:
